@@ -405,3 +405,43 @@ def merge_rows_transactions(p0: bool, p1: bool, n0: bool, n1: bool, desc: bool, 
     if not same_rows(got, want.rows):
         return 'order-by-other-column'
     return 'ok'
+
+
+@cond('C03.limit.after-having', quick=120, thorough=400,
+      bounds='3 rows (k in {NULL,0,1} enumerated, v symbolic int); SELECT k, sum(v) GROUP BY k HAVING sum(v) > 0 LIMIT n (n in 0..3, no '
+             'ORDER BY): the cut keeps the first min(n, size) rows of the result that HAVING leaves',
+      symbolic='v cells', enumerated='k cells, n', params={**{f'k{i}': int for i in range(3)}, **{f'v{i}': int for i in range(3)}, 'n': int},
+      group='C03.apply-order')
+def limit_after_having(n, **kw):
+    n = enum_int(n, 0, 3)
+    rows = [(KEYDOM.build(f'k{i}', kw), kw[f'v{i}']) for i in range(3)]
+    columns = [('k', int), ('v', int)]
+    having = ast.Greater(func('sum', col('v')), const(0))
+    stmt = sel([target(col('k')), target(func('sum', col('v')), 's')], 't', group_by=ast.GroupBy([1], having), limit=n)
+    cur, got, want = _run_both(stmt, rows, columns)
+    full = refsem.Ref({'t': (columns, rows)}).select(sel([target(col('k')), target(func('sum', col('v')), 's')], 't',
+                                                         group_by=ast.GroupBy([1], having))).rows
+    if len(got) != min(n, len(full)):
+        return 'limit-counts-rows-that-having-rejects'
+    if not same_rows(got, want.rows):
+        return 'rows'
+    return 'ok'
+
+
+@cond('C03.distinct.equal-hashes', quick=120,
+      bounds='3 rows x 2 columns with cells from {-1, -2, 0, NULL} (hash(-1) == hash(-2)), as int or decimal; SELECT DISTINCT a, b [ORDER BY '
+             'b]: only identical rows are dropped',
+      symbolic='(none)', enumerated='cells, int / decimal, ORDER BY presence',
+      params={**{f'{c}{i}': int for c in 'ab' for i in range(3)}, 'dec': bool, 'order': bool}, group='C03.distinct')
+def distinct_equal_hashes(dec, order, **kw):
+    import decimal
+    palette = [-1, -2, 0, None]
+    conv = (lambda v: None if v is None else decimal.Decimal(v)) if dec else (lambda v: v)
+    rows = [(conv(pick(palette, kw[f'a{i}'])), conv(pick(palette[:2], kw[f'b{i}']))) for i in range(3)]
+    columns = [('a', decimal.Decimal if dec else int), ('b', decimal.Decimal if dec else int)]
+    stmt = sel([target(col('a')), target(col('b'))], 't', distinct=True,
+               order_by=[ast.OrderBy(col('b'), ast.Ordering.ASC)] if order else None)
+    cur, got, want = _run_both(stmt, rows, columns)
+    if not same_rows(got, want.rows):
+        return 'distinct-drops-a-row-that-is-not-a-duplicate'
+    return 'ok'
